@@ -306,6 +306,7 @@ package casketfile
 //@ use @verif/specs/stdlib.spec:stdlib
 
 //@ unit single_import frames=on props=C10 nilchecks=on filter=`casketfile\.parser\)\.doSingleImport$`
+//@ ghost openedFile int
 //@ // C10 "a configuration split into imported files parses like the same text inline": importing one file can only fail
 //@ // because that file cannot be opened, is a directory, cannot be read or lexed, or its absolute path cannot be formed - it
 //@ // does not depend on what the parser did before (the same file may be imported any number of times), and it changes
@@ -332,6 +333,10 @@ package casketfile
 //@   ensures result != nil
 //@ func (*parser).doSingleImport
 //@   requires p != nil
-//@   modifies ghost:ioFailures, E:github.com/tmpim/casket/casketfile.Token
+//@   modifies ghost:ioFailures, ghost:openedFile, E:github.com/tmpim/casket/casketfile.Token
+//@   // C10 "an import behaves as if the file's text stood in its place": the lexer is handed the opened file ITSELF - the whole
+//@   // file - not a reader that stops early or filters (a size cap would make the result depend on inline versus imported)
+//@   at call os.Open do openedFile = result0
+//@   at call allTokens before [the_whole_file_is_lexed] arg0 == openedFile
 //@   ensures [fails_only_when_the_file_itself_cannot_be_read] (result1 != nil) == (ioFailures != old(ioFailures))
 //@   loop 1 invariant ioFailures == old(ioFailures)
